@@ -612,7 +612,8 @@ ScanUnspend(s, w, snap, q, i) ==
   IF i > Len(q) THEN <<>>
   ELSE LET k  == s.reg[q[i]].key
            s1 == ScanCancelEntry(s, w, snap[k])
-           s2 == [s1 EXCEPT !.w[w].outs = Put(@, k, [snap[k] EXCEPT !.st = "Unspent"])]
+           \* the repaired record takes the height the chain reports (fix: C16 ScanIdempotent)
+           s2 == [s1 EXCEPT !.w[w].outs = Put(@, k, [snap[k] EXCEPT !.st = "Unspent", !.h = HeightOfOut(s, q[i])])]
        IN <<s1, s2>> \o ScanUnspend(s2, w, snap, q, i + 1)
 
 \* chain outputs of ours with no matching record: restore + confirmed log entry
